@@ -1,0 +1,5 @@
+//go:build !verif
+
+package serveruser
+
+func verifYield(string) {}
